@@ -593,4 +593,102 @@ example : inFrag2 false exprColl = true ∧ typed2 (cfgWith .asIs) [] exprColl =
     typed2 (cfgWith3 .asIs) [] exprAnyTimes1 = false ∧ typed2 (cfgWith .asIs) [] exprIntsA = false := by
   decide +kernel
 
+def sampleWorld : World := { call := fun _ _ => .ok (.f64 0), regexMatch := fun _ _ => none, pow := fun _ _ => 0 }
+def sampleSCfg : Spec.SCfg :=
+  { world := sampleWorld, env := .struct "main.E2" false [("Ff", .fn "Ff"), ("I", .int .int 1)], budget := 1000 }
+
+def sampleTable : Table := [("I", { ty := some tInt }), ("Ff", { ty := some (.func [.num .float64] false [.num .float64]) })]
+
+private theorem sample_types : (cfgWith2 .asIs).types = some sampleTable := by decide +kernel
+
+private theorem sample_get (name : String) :
+    sampleTable.get? name = if name = "I" then some { ty := some tInt }
+      else if name = "Ff" then some { ty := some (.func [.num .float64] false [.num .float64]) } else none := by
+  simp only [sampleTable, Table.get?]
+  by_cases h1 : name = "I"
+  · subst h1; rfl
+  · by_cases h2 : name = "Ff"
+    · subst h2; rfl
+    · have h1' : ¬ "I" = name := fun h => h1 h.symm
+      have h2' : ¬ "Ff" = name := fun h => h2 h.symm
+      simp [h1, h2, h1', h2']
+
+private theorem sample_env : EnvConforms2 (cfgWith2 .asIs) sampleSCfg.env := by
+  intro name ns τ V hr hV
+  unfold identRule at hr
+  rw [sample_types] at hr
+  simp only [sample_get] at hr
+  by_cases h1 : name = "I"
+  · subst h1
+    simp (config := {decide := true}) only [if_true, if_false] at hr
+    cases hr
+    have : V = .sc (.num .int) := by
+      have : vtyOf (some tInt) = some (.sc (.num .int)) := by decide
+      rw [this] at hV; cases hV; rfl
+    subst this
+    exact ⟨.int .int 1, rfl, 1, rfl⟩
+  · by_cases h2 : name = "Ff"
+    · subst h2
+      simp (config := {decide := true}) only [if_true, if_false] at hr
+      cases hr
+      have : vtyOf (some (.func [.num .float64] false [.num .float64])) = none := by decide
+      rw [this] at hV; cases hV
+    · simp only [h1, h2, if_false] at hr
+      simp (config := {decide := true}) only [cfgWith2, if_false] at hr
+      cases ns <;> simp at hr
+      cases hr
+      have : vtyOf none = none := by decide
+      rw [this] at hV; cases hV
+
+private theorem sample_world (E : ErrClass → Prop) : WorldConforms E (cfgWith2 .asIs) sampleSCfg := by
+  intro name fn im ins variadic numIn offset out vs V hft hfp hconf hV
+  unfold funcTargetC at hft
+  rw [sample_types] at hft
+  simp only [Option.bind, sample_get] at hft
+  by_cases h1 : name = "I"
+  · subst h1
+    simp (config := {decide := true}) only [if_true] at hft
+    have : isFuncType (some tInt) = none := by decide
+    simp [this] at hft
+  · by_cases h2 : name = "Ff"
+    · subst h2
+      simp (config := {decide := true}) only [if_true, if_false] at hft
+      have : isFuncType (some (.func [.num .float64] false [.num .float64])) = some (.func [.num .float64] false [.num .float64]) := by
+        decide +kernel
+      simp only [this, Option.map, Option.some.injEq, Prod.mk.injEq] at hft
+      obtain ⟨rfl, rfl⟩ := hft
+      -- the result type is float64, the call returns a float64
+      have hout : out = .num .float64 := by
+        unfold funcPlan at hfp
+        simp (config := {decide := true}) [Ty.funcParts, Ty.core] at hfp
+        split at hfp <;> (try split at hfp) <;> (try split at hfp) <;> simp at hfp
+        exact hfp.2.2.2.2.symm
+      subst hout
+      have : V = .sc (.num .float64) := by
+        have : vtyOf (some (.num .float64)) = some (.sc (.num .float64)) := by decide
+        rw [this] at hV; cases hV; rfl
+      subst this
+      exact ⟨0, rfl⟩
+    · simp [h1, h2] at hft
+
+/-- the hypotheses of the soundness theorems are satisfiable — an environment value and a world for
+`envTy2` (`I int`, `Ff func(float64) float64`) — and the theorem applies: `Ff(-(1 + 2))`, accepted with
+type float64, evaluates to a float64 or fails with a tolerated class. -/
+theorem sound_hypotheses_witness :
+    EnvConforms2 (cfgWith2 .asIs) sampleSCfg.env ∧
+    WorldConforms (fun e => ValueDep e ∨ e = .call) (cfgWith2 .asIs) sampleSCfg ∧
+    ∀ n' τ, check (cfgWith2 .asIs) exprFfLit = .ok n' τ → ∀ ctx s,
+      match (Spec.eval sampleSCfg ctx n' s).1 with
+      | .ok v => ∃ x, v = .f64 x
+      | .error e => ValueDep e ∨ e = .call := by
+  refine ⟨sample_env, sample_world _, ?_⟩
+  intro n' τ h ctx s
+  have hτ : τ = some (.num .float64) := by
+    have : (check (cfgWith2 .asIs) exprFfLit).okType = some (some (.num .float64)) := by decide +kernel
+    rw [h] at this
+    simpa [CheckResult.okType] using this
+  subst hτ
+  exact check_sound_calls_partial (cfgWith2 .asIs) sampleSCfg sample_env (sample_world _) exprFfLit n' _
+    (.sc (.num .float64)) (by decide +kernel) (by decide +kernel) h (by decide) ctx s
+
 end ExprModel.C03
